@@ -31,7 +31,8 @@ Strings travel as decimal code points joined by `.` (`-` is the empty string), a
 * **Ops**
   * `del P`            – `node.delete()` / `parent.remove(node)`
   * `rep P M,M..`      – `node.replace_with(..)` / `parent.replace(node, ..)`
-  * `ins C i M,M..`    – `container.insert(i, ..)`
+  * `ins C i M,M..`    – `container.insert(i, ..)`; `i` is any integer (`-2`), resolved once like
+    `list.insert` (`pyInsertIndex`, `ArgsEdit.lean`)
   * `app C M,M..`      – `container.append(..)`
   * `ren P name`       – `node.name = name` (encoded)
   * `str P string`     – `node.string = string` (encoded)
@@ -205,8 +206,8 @@ def parseOp (doc : List Expr) (w : String) : Option EditOp :=
   | ["rep", p, m] => match parsePath p, parseMats doc m with
     | some p, some m => some (.replace p m)
     | _, _ => none
-  | ["ins", c, i, m] => match parsePath c, i.toNat?, parseMats doc m with
-    | some c, some i, some m => some (.insert c i m)
+  | ["ins", c, i, m] => match parsePath c, parseInt i, parseMats doc m with
+    | some c, some i, some m => insertEdit doc c i m
     | _, _, _ => none
   | ["app", c, m] => match parsePath c, parseMats doc m with
     | some c, some m => some (.append c m)
